@@ -6,6 +6,7 @@ package peg
 
 import (
 	"fmt"
+	"sort"
 	"strconv"
 	"strings"
 	"unicode/utf8"
@@ -577,12 +578,29 @@ type codeBlock struct {
 	n    *Node
 }
 
-// GoSource renders the grammar as a Go file of package grammar.
-func (g *Grammar) GoSource() string {
+// GoSource renders the grammar; imports is the import list of grammar.go (path
+// -> one exported identifier to reference, so unused imports do not break the build).
+func (g *Grammar) GoSource(imports map[string]string) string {
 	var sb strings.Builder
 	sb.WriteString("// Code generated by vcheck from grammar/grammar.peg on every run. DO NOT EDIT.\n\npackage grammar\n\n")
-	sb.WriteString("import (\n\t\"errors\"\n\t\"fmt\"\n\t\"strconv\"\n\t\"strings\"\n\n\t\"github.com/mitchellh/pointerstructure\"\n)\n\n")
-	sb.WriteString("var _ = errors.New\nvar _ = fmt.Sprintf\nvar _ = strconv.Itoa\nvar _ = strings.Join\nvar _ = pointerstructure.Parse\n\n")
+	if len(imports) == 0 {
+		imports = map[string]string{"errors": "New", "fmt": "Sprintf", "strconv": "Itoa", "strings": "Join", "github.com/mitchellh/pointerstructure": "Parse"}
+	}
+	var paths []string
+	for p := range imports {
+		paths = append(paths, p)
+	}
+	sort.Strings(paths)
+	sb.WriteString("import (\n")
+	for _, p := range paths {
+		fmt.Fprintf(&sb, "\t%q\n", p)
+	}
+	sb.WriteString(")\n\n")
+	for _, p := range paths {
+		name := p[strings.LastIndex(p, "/")+1:]
+		fmt.Fprintf(&sb, "var _ = %s.%s\n", name, imports[p])
+	}
+	sb.WriteString("\n")
 	sb.WriteString(`type pegNode struct {
 	Kind                 string
 	Line, Col, Off, Idx  int
